@@ -117,7 +117,7 @@ theorem repaired_generator_restrictions_legal (F6 : Facts06) (hc : F6.clampFacet
   fixed_facets_legal F6 hc hm k r i hi
 
 /-- the repair does not change what a type accepts: whatever the two switches measure, the written
-    facets admit exactly the declared values of the base type (for declarations the model class
+    facets allow exactly the declared values of the base type (for declarations the model class
     does not refuse with ValueError) -/
 theorem written_facets_same_value_space (k : IntKind) (r : Range) (i : Int)
     (hs : rangeSane k r = true) (hi : inKind k i = true) :
